@@ -1,4 +1,5 @@
 import WtfModel.Props.C12
+import WtfModel.Props.C12b
 #print axioms Wtf.C12.default_capacity_pos
 #print axioms Wtf.C12.bounded
 #print axioms Wtf.C12.effCap_spec
@@ -9,3 +10,7 @@ import WtfModel.Props.C12
 #print axioms Wtf.C12.sweep_only_expired
 #print axioms Wtf.C12.stats_hits_misses
 #print axioms Wtf.C12.stats_evictions_size
+#print axioms Wtf.C12.step_regenerated
+#print axioms Wtf.C12.run_regenerated
+#print axioms Wtf.C12.evictOldest_regenerated
+#print axioms Wtf.C12.bounded_regenerated
